@@ -5,6 +5,7 @@ import (
 	"time"
 
 	"github.com/pion/turn/v5/internal/allocation"
+	"github.com/pion/turn/v5/internal/auth"
 	"github.com/pion/turn/v5/internal/proto"
 )
 
@@ -14,7 +15,7 @@ type vGen struct{ opened int }
 func (g *vGen) Validate() error { return nil }
 func (g *vGen) AllocatePacketConn(AllocateListenerConfig) (net.PacketConn, net.Addr, error) {
 	g.opened++
-	pc := &allocation.VPacketConn{Name: "relay", Local: allocation.VUDPAddr4()}
+	pc := &allocation.VPacketConn{Name: "relay", Local: allocation.VUDPAddr4(), Idle: make(chan struct{})} // silent while open
 	return pc, pc.Local, nil
 }
 func (g *vGen) AllocateListener(AllocateListenerConfig) (net.Listener, net.Addr, error) {
@@ -98,5 +99,40 @@ func VerifHarness_C04_control_connection_close() {
 	vAssertIf(!isB, b.VRelay().Closed == 0, "C15.other_clients_relay_untouched")
 	vAssert(conn.Closed == 1, "C15.ended_control_connection_is_closed_once")
 	vAssert(vLocksHeld() == 0, "C18.no_lock_left_held")
+	vReach("end")
+}
+
+// NewServer wires every configured listener to an allocation table of its own: when the TCP listener ends (its
+// accept loop closes ITS table), the allocations made through the UDP listener of the same server are untouched.
+//
+//verif:props=C04,C02,C15 unwind=20 bounds="NewServer with one PacketConnConfig (idle socket) and one ListenerConfig (listener that closes at once), the same relay address generator; one allocation in the UDP listener's table"
+func VerifHarness_C04_new_server_gives_each_listener_its_own_table() {
+	udp := &allocation.VPacketConn{Name: "udp-listen", Local: allocation.VUDPAddr4(), Idle: make(chan struct{})}
+	ln := &allocation.VListener{Address: allocation.VTCPAddr4()}
+	gen := &vGen{}
+	first := vSpawnCount()
+	s, err := NewServer(ServerConfig{
+		Realm:             "realm",
+		AuthHandler:       func(*auth.RequestAttributes) (string, []byte, bool) { return "", nil, false },
+		LoggerFactory:     vLoggerFactory{},
+		PacketConnConfigs: []PacketConnConfig{{PacketConn: udp, RelayAddressGenerator: gen}},
+		ListenerConfigs:   []ListenerConfig{{Listener: ln, RelayAddressGenerator: gen}},
+	})
+	vAssume(err == nil)
+	vAssert(len(s.allocationManagers) == 2, "C04.one_allocation_table_per_listener")
+	vAssume(len(s.allocationManagers) == 2)
+	ft := &allocation.FiveTuple{SrcAddr: allocation.VUDPAddr4(), DstAddr: udp.Local, Protocol: allocation.UDP}
+	a, e2 := s.allocationManagers[0].CreateAllocation(ft, udp, proto.ProtoUDP, 0, 600*time.Second, "u1", "realm", proto.RequestedFamilyIPv4)
+	vAssume(e2 == nil)
+	// the listener goroutines: the UDP one waits for traffic, the TCP one sees its closed listener and winds down
+	for i := first; i < vSpawnCount(); i++ {
+		if !vSpawnStarted(i) {
+			vRunSpawn(i)
+		}
+	}
+	vYield()
+	vAssert(s.allocationManagers[0].GetAllocation(ft) == a, "C04.another_listeners_exit_leaves_this_listeners_allocations")
+	vAssert(a.VRelay().Closed == 0, "C15.another_listeners_exit_releases_nothing_of_this_listener")
+	vAssert(a.VRelay().Closed == 0, "C02.each_listener_serves_its_own_allocation_table")
 	vReach("end")
 }
